@@ -88,6 +88,16 @@ func value(cls string) interface{} {
 		return int64(math.MinInt64)
 	case "float32":
 		return float32(1.5)
+	case "f32frac": // a float32 that is no float64: 0.1
+		return float32(0.1)
+	case "nestedbig": // an integer beyond 2^53 INSIDE a container
+		return map[string]interface{}{"i": int64(9007199254740993), "l": []interface{}{int64(9007199254740993), float32(0.1)}}
+	case "structnum":
+		return struct {
+			F float32
+			I int64
+			U uint64
+		}{0.1, 9007199254740993, 18446744073709551615}
 	case "float64":
 		return 3.141592653589793
 	case "bigfloat":
